@@ -19,7 +19,7 @@ MANIFEST = {
 }
 THEOREMS = ["C02_totals_cover_positions", "C02_ledger_meaning", "C02_exact_deltas_and_dust", "C02_zero_totals_no_positions",
             "C02_initial_world", "C02_instruction_level",
-            "C02_transfer_keeps_position_sums", "C02_close_removes_only_empty_positions",
+            "C02_transfer_keeps_position_sums", "C02_transfer_pda_keeps_position_sums", "C02_close_removes_only_empty_positions",
             "C02_purge_keeps_ledger", "C02_purge_effect_on_totals", "C02_deleverage_tx_keeps_ledger", "C02_close_bank_only_without_positions"]
 RULE = ("level B: operation sequences over 1-3 banks and 1-4 accounts on the real Bank + BankAccountWrapper (deposit/withdraw/"
         "borrow/repay/withdraw_all/repay_all/close/liquidation legs/accrue/socialise/claim/settle/sort); level C: instruction-handler "
@@ -81,11 +81,24 @@ def oracle_acctlife(case, impl):
             if A is not None and any(b[0] and (b[3] >= ONE or b[4] >= ONE) for b in A["bals"]):
                 return {"key": "account-closed-with-positions",
                         "what": "marginfi_account_close removed an account whose active positions still hold shares: bank totals now exceed the sum of positions by more than dust"}
-        if res == "OK" and op[0] == 2:
+        if res == "OK" and op[0] in (2, 6):
             A = cur[op[1]]
             N = accts[op[2]]
             if A is not None and (N is None or N["bals"] != A["bals"]):
                 return {"key": "transfer-changed-positions", "what": "transfer_to_new_account did not move the positions unchanged"}
+            # the per-bank sums over ALL accounts (the retired source included) must not change: bank totals do not move
+            def sums(state):
+                out = {}
+                for acc in state:
+                    for b in (acc["bals"] if acc else []):
+                        if b[0]:
+                            k = out.setdefault(b[1], [0, 0])
+                            k[0] += b[3]
+                            k[1] += b[4]
+                return out
+            if sums(accts) != sums(cur):
+                return {"key": "transfer-changed-position-sums",
+                        "what": f"transfer (op {op[0]}): the sum of recorded shares over all accounts changed from {sums(cur)} to {sums(accts)} while no bank total moved"}
         if res == "OK":
             cur = accts
     return None
